@@ -60,6 +60,7 @@ def Script.apply (f : Script) (unpack : Bool) (c : Call) : Val :=
   | .cnt => Val.int (countTruthy (c.unnamed unpack))                 -- lambda *a / lambda a: number of true values
   | .sel => if (c.one "c").truthy then c.one "x" else c.one "y"      -- lambda …, c, x, y: x if c else y
   | .glen => Val.int (countTruthy (c.many "g") + (c.unnamed unpack).length)
+  | .big => Val.int (1000 + countTruthy (c.unnamed unpack))              -- lambda *a / lambda a: 1000 + number of true values
 
 /-- rendering for the line protocol; keyword arguments sorted by name (a dict has no order to compare) -/
 def Arg.render : Arg → String
